@@ -361,6 +361,40 @@ pub fn placement_advanced_pawns() -> impl Strategy<Value = PlacementRecipe> + Cl
         })
 }
 
+/// G3 extreme but legal material: up to nine queens, ten rooks / bishops / knights a side (at most
+/// eight promotions and fifteen men besides the king each), scattered over the board. Positions with
+/// 100-218 legal moves, a dozen sliders of one colour, pieces pinned by the tenth enemy slider: every
+/// fixed-size list, counter or "nobody has that many" shortcut in generator, loader or search is at risk.
+pub fn placement_crowd() -> impl Strategy<Value = PlacementRecipe> + Clone {
+    let side = || proptest::collection::vec((prop_oneof![4 => Just(4u8), 2 => Just(3u8), 1 => Just(2u8), 2 => Just(1u8), 1 => Just(0u8)], 0u8..64), 4..16);
+    (0u8..64, 0u8..64, side(), side(), any::<bool>(), 0u8..4).prop_map(|(wk, bk, w, b, white_to_move, lopsided)| {
+        let mut men: Vec<(u8, bool, u8)> = vec![];
+        for (white, list) in [(true, w), (false, b)] {
+            // lopsided: one side keeps only a few men (wide open board for the other side's queens)
+            let keep = if (lopsided == 1 && !white) || (lopsided == 2 && white) { 2 } else { 15 };
+            let (mut q, mut r, mut bi, mut n, mut pw) = (0i32, 0i32, 0i32, 0i32, 0i32);
+            let mut count = 0;
+            for (k, s) in list {
+                let (nq, nr, nb, nn, np) = match k {
+                    4 => (q + 1, r, bi, n, pw),
+                    3 => (q, r + 1, bi, n, pw),
+                    2 => (q, r, bi + 1, n, pw),
+                    1 => (q, r, bi, n + 1, pw),
+                    _ => (q, r, bi, n, pw + 1),
+                };
+                let promos = (nq - 1).max(0) + (nr - 2).max(0) + (nb - 2).max(0) + (nn - 2).max(0);
+                if count >= keep || nq > 9 || nr > 10 || nb > 10 || nn > 10 || promos + np > 8 {
+                    continue;
+                }
+                (q, r, bi, n, pw) = (nq, nr, nb, nn, np);
+                count += 1;
+                men.push((k, white, s));
+            }
+        }
+        PlacementRecipe { wk, bk, men, white_to_move, rights: 0, ep: 0 }
+    })
+}
+
 pub fn recipe_json(r: &PlacementRecipe) -> Value {
     match build_placement(r) {
         Some(p) => json!({"fen": p.fen()}),
@@ -447,6 +481,7 @@ pub fn walk_strategy(max_len: usize) -> impl Strategy<Value = WalkRecipe> + Clon
         1 => placement_promo().prop_map(Start::Placement),
         1 => placement_ep().prop_map(Start::Placement),
         1 => placement_advanced_pawns().prop_map(Start::Placement),
+        1 => placement_crowd().prop_map(Start::Placement),
     ];
     (start, proptest::collection::vec(any::<u16>(), 0..max_len)).prop_map(|(start, choices)| WalkRecipe { start, choices })
 }
